@@ -215,6 +215,12 @@ static void seq_faults(vh_rng* r, int kind, int et, int size) {
   } else {
     FAULT(c, dump_seq, FC_RESIZE, "resize", "to-len", resize(c, (size_t)size));
     FAULT(c, dump_seq, FC_RESIZE, "resize", "above-len", resize(c, (size_t)size + 3));
+    /* ... and to lengths far out of range, on either side of where a signed length would wrap */
+    FAULT(c, dump_seq, FC_RESIZE, "resize", "INT64_MAX", resize(c, (size_t)INT64_MAX));
+    FAULT(c, dump_seq, FC_RESIZE, "resize", "2^63", resize(c, (size_t)1 << 63));
+    FAULT(c, dump_seq, FC_RESIZE, "resize", "2^63+len-1", resize(c, ((size_t)1 << 63) + (size_t)(size > 0 ? size - 1 : 1)));
+    FAULT(c, dump_seq, FC_RESIZE, "resize", "SIZE_MAX-2", resize(c, SIZE_MAX - 2));
+    vh_count("tuples_offered_far_out_of_range_lengths");
   }
   FAULT(c, dump_seq, FC_NULL, "get", "NULL-index", get(c, NULL));
   if (kind != SK_TUPLE) { del_raw(good); }
